@@ -16,7 +16,10 @@ func ContextAfterFunc(ctx context.Context, f func()) (stop func() bool) {
 	}
 	stopCh := make(chan struct{})
 	stopped, ran := false, false
+	hb := new(byte) // registration happens before the function runs
+	RaceReleaseMerge(unsafePointer(hb))
 	S.spawn("context.AfterFunc", "repo", func() {
+		RaceAcquire(unsafePointer(hb))
 		t := Pre()
 		select {
 		case <-ctx.Done():
